@@ -18,17 +18,19 @@ TYPES = {
 
 
 def conv(typ, b):
+    if typ == 'text':
+        return ''.join(chr(c) for c in b)          # a str k-mer given as code points (may lie outside ASCII / Latin-1)
     return TYPES[typ](bytes(b))
 
 
 def rec_k2i(op, typ, kmer):
     f = gk.kmer_to_index if op == 'k2i' else gk.kmer_to_index_rc
     arg = conv(typ, kmer)
-    r = dict(op=op, typ=typ, kmer=blist(kmer), ok=False, err='', digits=[], val=-1, inrange=True)
+    r = dict(op=op, typ=typ, kmer=(list(kmer) if typ == 'text' else blist(kmer)), ok=False, err='', digits=[], val=-1, inrange=True)
     try:
         idx = f(arg)
     except Exception as e:
-        r['err'] = type(e).__name__
+        r['err'] = 'ValueError' if isinstance(e, ValueError) else type(e).__name__      # UnicodeEncodeError is a ValueError
         return r
     k = len(kmer)
     r['ok'] = True
@@ -76,7 +78,7 @@ class Fam(core.Family):
     def execute(self, inp):
         op = inp[0]
         if op in ('k2i', 'k2irc'):
-            return rec_k2i(op, inp[1], bytes(inp[2]))
+            return rec_k2i(op, inp[1], (inp[2] if inp[1] == 'text' else bytes(inp[2])))
         if op == 'i2k':
             return rec_i2k(inp[1])
         return rec_revcomp(bytes(inp[1]), involution=(op == 'involution'))
@@ -152,7 +154,7 @@ class Boundary(Fam):
     name = 'boundary-kmers'
     exhaustive = True
     rule = ('all-A, all-T, single-T (each position), alternating and one-invalid-byte k-mers for every k in 1..33 '
-            '(k=33 must be rejected), in all four input types; indices all-0 / all-3 / single-3 through index_to_kmer')
+            '(k=33 must be rejected), in all four input types, plus str k-mers with one non-ASCII symbol; indices all-0 / all-3 / single-3 through index_to_kmer')
 
     def inputs(self, ctx):
         for k in range(1, 34):
@@ -170,6 +172,12 @@ class Boundary(Fam):
                     yield ['k2i', typ, list(km)]
                     yield ['k2irc', typ, list(km)]
                 yield ['involution', list(km)]
+            # text k-mers with one symbol outside ASCII (accented letter, C1 control, no-break space, look-alike letters, line separator)
+            for p in {0, k // 2, k - 1}:
+                for cp in (0xe9, 0x80, 0xa0, 0x410, 0xff21, 0x2028, 0x1d400):
+                    km = [67] * p + [cp] + [71] * (k - p - 1)
+                    yield ['k2i', 'text', km]
+                    yield ['k2irc', 'text', km]
             if k <= 32:
                 yield ['i2k', [0] * k]
                 yield ['i2k', [3] * k]
